@@ -2,7 +2,7 @@
     Part 1: sorting, requests. Part 2: the archive decision (C08 kernel). Part 3: every event of a pass is
     justified (C07 / C08 / C09 pass level). Part 4: histories (C07 invariants). *)
 From Coq Require Import List NArith ZArith Bool Lia Permutation.
-From PKO Require Import Util Base BaseProofs Owner Api Phase ObjectSet Deployment.
+From PKO Require Import Util Base BaseProofs Owner Api Phase ObjectSet ObjectSetProofs Deployment.
 Import ListNotations.
 Local Open Scope N_scope.
 
@@ -542,7 +542,7 @@ Section PassEvents.
   (** ** New revision (new_revision_reconciler.go) *)
   Lemma create_req_spec st s st' r :
     create_req fault st s = (st', r) ->
-    (st' = st /\ p_dead st = true) \/
+    (st' = st /\ p_dead st = true /\ r = CrErr) \/
     (p_dead st = false /\
      news st st' [DCreate (sname s) (os_phases (ds_set s)) (os_prev (ds_set s)) (match ds_hash s with Some h => h | None => 0 end) r] /\
      match r with
@@ -555,7 +555,7 @@ Section PassEvents.
               w_store (dw_w (p_w st')) = w_store (dw_w (p_w st))
      end).
   Proof.
-    unfold create_req. destruct (p_dead st) eqn:Ed; [intros H; injection H as <- _; now left|]. right. split; [reflexivity|].
+    unfold create_req. destruct (p_dead st) eqn:Ed; [intros H; injection H as <- <-; now left|]. right. split; [reflexivity|].
     destruct (fault_now fault st).
     - destruct (find_dset _ _) as [c|] eqn:Ef; injection H as <- <-.
       + split; [reflexivity|]. cbn. repeat split; auto. now exists c.
@@ -651,20 +651,24 @@ Section PassTheorems.
     new_revision fault st d cur prev = (st', d') ->
     exists es, news st st' es /\
       (es = [] \/ exists r, es = [DCreate (d_hash d) (d_phases d) (map sname prev) (d_hash d) r] /\ cur = None /\ d_phases d <> []) /\
-      (d' = d \/ (d' = set_cc d (bump_cc (d_cc d)) /\ cur = None)).
+      (d' = d \/ (d' = set_cc d (bump_cc (d_cc d)) /\ cur = None /\
+                  es = [DCreate (d_hash d) (d_phases d) (map sname prev) (d_hash d) CrExists])).
   Proof.
     unfold new_revision. destruct cur as [c|]; [intros H; injection H as <- <-; exists []; split; [apply news_refl|]; split; now left|].
     destruct (d_phases d) as [|ph phs] eqn:Eph; cbn [is_nil]; [intros H; injection H as <- <-; exists []; split; [apply news_refl|]; split; now left|].
     destruct (create_req fault st (new_set d prev)) as [st1 r] eqn:Ec.
-    assert (Hn : exists es, news st st1 es /\ (es = [] \/ exists r0, es = [DCreate (d_hash d) (d_phases d) (map sname prev) (d_hash d) r0] /\ @None dset = None /\ d_phases d <> [])).
-    { destruct (create_req_spec _ _ _ _ _ Ec) as [[-> _]|(_ & Hn & _)]; [exists []; split; [apply news_refl|now left]|].
-      eexists. split; [exact Hn|]. right. exists r. split; [reflexivity|]. split; [reflexivity|]. rewrite Eph. discriminate. }
-    destruct Hn as (es & Hn & Hes). rewrite Eph in Hes.
-    destruct r; try (intros H; injection H as <- <-; exists es; split; [assumption|]; split; [assumption|now left]).
-    destruct (find_dset (dw_sets (p_w (read_req fault st1))) (d_hash d)) as [c|].
-    - destruct (adoptable d prev c); intros H; injection H as <- <-; exists es;
-        (split; [unfold news in *; now rewrite read_req_evs|]); (split; [assumption|]); [now left|right; auto].
-    - intros H; injection H as <- <-. exists es. split; [unfold news in *; now rewrite read_req_evs|]. split; [assumption|now left].
+    assert (Hne : d_phases d <> []) by (rewrite Eph; discriminate). rewrite <- Eph.
+    destruct (create_req_spec _ _ _ _ _ Ec) as [(-> & _ & ->)|(_ & Hn & _)].
+    - intros H; injection H as <- <-. exists []. split; [apply news_refl|]. split; now left.
+    - cbn [new_set sname ds_set os_id oi_name os_phases os_prev ds_hash] in Hn.
+      assert (Hes : [DCreate (d_hash d) (d_phases d) (map sname prev) (d_hash d) r] = [] \/
+                    exists r0, [DCreate (d_hash d) (d_phases d) (map sname prev) (d_hash d) r] = [DCreate (d_hash d) (d_phases d) (map sname prev) (d_hash d) r0] /\ @None dset = None /\ d_phases d <> [])
+        by (right; exists r; auto).
+      destruct r; try (intros H; injection H as <- <-; eexists; split; [exact Hn|]; split; [exact Hes|now left]).
+      destruct (find_dset (dw_sets (p_w (read_req fault st1))) (d_hash d)) as [c|].
+      + destruct (adoptable d prev c); intros H; injection H as <- <-; eexists;
+          (split; [unfold news in *; rewrite read_req_evs; exact Hn|]); (split; [exact Hes|]); [now left|right; auto].
+      + intros H; injection H as <- <-. eexists. split; [unfold news in *; rewrite read_req_evs; exact Hn|]. split; [exact Hes|now left].
   Qed.
 
   (** What justifies each request of a pass, in terms of the world before the pass. *)
@@ -763,7 +767,7 @@ Section PassTheorems.
              rewrite map_removelast, <- Hnames, <- map_removelast, map_length in Hin.
              unfold gc_count in *. now rewrite <- Hlim.
         * destruct (set_status_keeps d3 (fst (split_current (has_current d1 L) mem')) (snd (split_current (has_current d1 L) mem'))) as (H1 & H2 & _).
-          apply Hstatus; [congruence|]. rewrite H2. destruct Hd3 as [->|[-> Hcn]]; [left; exact Hcc|].
+          apply Hstatus; [congruence|]. rewrite H2. destruct Hd3 as [->|(-> & Hcn & _)]; [left; exact Hcc|].
           right. cbn. rewrite <- Hpa. auto.
   Qed.
 
@@ -1182,3 +1186,406 @@ Section PassFrame.
     all: try (destruct F7 as (A1 & A2 & A3 & A4 & A5 & A6 & A7); assumption).
   Qed.
 End PassFrame.
+
+(** * Part 5: histories *)
+
+(** The invariant of C07 on the ObjectSets the deployment selects ("its" ObjectSets):
+    unique names (they are the content of a store), pairwise different non-zero revisions, and an ObjectSet
+    that has not reported its revision yet names every other one, all of which have reported theirs. *)
+Record Inv (w : dworld) : Prop := {
+  i_nodup : NoDup (map sname (dw_sets w));
+  i_uniq : forall a b, In a (dw_sets w) -> In b (dw_sets w) -> ds_sel a = true -> ds_sel b = true ->
+                       sname a <> sname b -> srev a <> 0%Z -> srev a <> srev b;
+  i_zero : forall a b, In a (dw_sets w) -> In b (dw_sets w) -> ds_sel a = true -> ds_sel b = true ->
+                       sname a <> sname b -> srev a = 0%Z -> srev b <> 0%Z /\ In (sname b) (os_prev (ds_set a))
+}.
+
+(** One action of the ObjectSet side on the list of ObjectSets: names, previous lists, labels, annotations and
+    deletion marks stay; a revision number changes only from 0 to a non-zero number greater than the revisions of
+    all the ObjectSets named in the previous list; only an ObjectSet marked for deletion disappears. *)
+Definition srel (S : list dset) (x x' : dset) : Prop :=
+  sname x' = sname x /\ os_prev (ds_set x') = os_prev (ds_set x) /\ ds_sel x' = ds_sel x /\ ds_hash x' = ds_hash x /\
+  os_deleting (ds_set x') = os_deleting (ds_set x) /\
+  (srev x' = srev x \/
+   (srev x = 0%Z /\ srev x' <> 0%Z /\ forall b, In b S -> In (sname b) (os_prev (ds_set x)) -> (srev b < srev x')%Z)).
+
+Definition oset_step (S S' : list dset) : Prop :=
+  (NoDup (map sname S) -> NoDup (map sname S')) /\
+  (forall x', In x' S' -> exists x, In x S /\ srel S x x') /\
+  (forall x, In x S -> (exists x', In x' S' /\ srel S x x') \/ os_deleting (ds_set x) = true).
+
+Lemma srel_refl S x : srel S x x.
+Proof. repeat split; auto. Qed.
+
+Lemma oset_step_refl S : oset_step S S.
+Proof. split; [auto|]. split; intros x Hx; [|left]; exists x; split; auto using srel_refl. Qed.
+
+Lemma NoDup_map_eq {A B} (f : A -> B) l x y : NoDup (map f l) -> In x l -> In y l -> f x = f y -> x = y.
+Proof.
+  induction l as [|z r IH]; cbn; [contradiction|]. intros Hnd Hx Hy E. inversion Hnd as [|? ? Hn Hr]; subst.
+  destruct Hx as [->|Hx], Hy as [->|Hy]; auto.
+  - exfalso. apply Hn. rewrite E. now apply in_map.
+  - exfalso. apply Hn. rewrite <- E. now apply in_map.
+Qed.
+
+Lemma inv_oset_step w w' :
+  Inv w -> oset_step (dw_sets w) (dw_sets w') -> Inv w'.
+Proof.
+  intros [U1 U2 U3] (Hnd & Hold & _). constructor; [auto|..].
+  - intros a' b' Ha' Hb' Sa Sb Hne Hra.
+    destruct (Hold a' Ha') as (a & Ha & Na & Pa & Sela & _ & _ & Ra). destruct (Hold b' Hb') as (b & Hb & Nb & Pb & Selb & _ & _ & Rb).
+    assert (Hnab : sname a <> sname b) by congruence. rewrite Sela in Sa. rewrite Selb in Sb.
+    destruct Ra as [Ra|(Ra0 & Ran & Rab)], Rb as [Rb|(Rb0 & Rbn & Rbb)].
+    + rewrite Ra, Rb. apply U2; auto; congruence.
+    + destruct (U3 b a Hb Ha Sb Sa (not_eq_sym Hnab) Rb0) as (Hran & Hin). specialize (Rbb a Ha Hin). rewrite Ra. lia.
+    + destruct (U3 a b Ha Hb Sa Sb Hnab Ra0) as (Hrbn & Hin). specialize (Rab b Hb Hin). rewrite Rb. lia.
+    + destruct (U3 a b Ha Hb Sa Sb Hnab Ra0) as (Hrbn & _). contradiction.
+  - intros a' b' Ha' Hb' Sa Sb Hne Hra.
+    destruct (Hold a' Ha') as (a & Ha & Na & Pa & Sela & _ & _ & Ra). destruct (Hold b' Hb') as (b & Hb & Nb & Pb & Selb & _ & _ & Rb).
+    assert (Hnab : sname a <> sname b) by congruence. rewrite Sela in Sa. rewrite Selb in Sb.
+    assert (Ra0 : srev a = 0%Z) by (destruct Ra as [Ra|(_ & Ran & _)]; [congruence|contradiction]).
+    destruct (U3 a b Ha Hb Sa Sb Hnab Ra0) as (Hrbn & Hin). rewrite Pa, Nb. split; [|assumption].
+    destruct Rb as [Rb|(Rb0 & _)]; congruence.
+Qed.
+
+(** ** The steps of the ObjectSet side *)
+Lemma scan_prev_bound sets s : forall names latest m,
+  scan_prev sets s names latest = Some (Some m) ->
+  (latest <= m)%Z /\ forall nm, In nm names -> exists p, find_set sets (oi_kind (os_id s)) (oi_ns (os_id s)) nm = Some p /\
+                                                       os_revision p <> 0%Z /\ (os_revision p <= m)%Z.
+Proof.
+  induction names as [|n r IH]; cbn; intros latest m H; [injection H as <-; split; [lia|contradiction]|].
+  destruct (find_set sets _ _ n) as [p|] eqn:Ef; [|discriminate].
+  destruct (os_revision p =? 0)%Z eqn:E0; [discriminate|]. apply Z.eqb_neq in E0.
+  destruct (IH _ _ H) as (Hle & Hall). split; [lia|]. intros nm [<-|Hnm]; [|now apply Hall].
+  exists p. repeat split; auto. lia.
+Qed.
+
+Lemma rewrap_id sets x : find_dset sets (sname x) = Some x -> rewrap sets (ds_set x) = x.
+Proof. unfold rewrap. fold (sname x). intros ->. now destruct x. Qed.
+
+Lemma map_rewrap_id sets : NoDup (map sname sets) -> map (rewrap sets) (map ds_set sets) = sets.
+Proof.
+  intros Hnd. rewrite map_map. transitivity (map (fun x => x) sets); [|apply map_id]. apply map_ext_in. intros x Hx. apply rewrap_id. now apply nodup_find.
+Qed.
+
+Lemma of_to_sworld w : NoDup (map sname (dw_sets w)) -> of_sworld w (to_sworld w) = w.
+Proof. intros H. unfold of_sworld, to_sworld. cbn. rewrite (map_rewrap_id _ H). now destruct w. Qed.
+
+Lemma list_eqb_refl {A} (eqb : A -> A -> bool) : (forall x, eqb x x = true) -> forall l, list_eqb eqb l l = true.
+Proof. intros H. induction l as [|x r IH]; cbn; [reflexivity|]. now rewrite H, IH. Qed.
+
+Lemma cond_eqb_refl c : cond_eqb c c = true.
+Proof. unfold cond_eqb. destruct c as [t s r g]; cbn. rewrite Z.eqb_refl. destruct t, s, r; reflexivity. Qed.
+
+Lemma status_eqb_refl a : status_eqb a a = true.
+Proof.
+  unfold status_eqb. rewrite Z.eqb_refl, (list_eqb_refl _ cond_eqb_refl), (list_eqb_refl _ okey_eqb_refl). cbn.
+  apply list_eqb_refl. intros [x y]. cbn. now rewrite !N.eqb_refl.
+Qed.
+
+Lemma update_status_shape sw m sw' m' ok :
+  update_status sw m = (sw', m', ok) ->
+  (sw' = sw /\ m' = m) \/
+  (exists stored, find_set (sw_sets sw) (oi_kind (os_id m)) (oi_ns (os_id m)) (oi_name (os_id m)) = Some stored /\
+     os_rv stored = os_rv m /\ status_eqb stored m = false /\
+     sw' = {| sw_w := bump_rv (sw_w sw); sw_sets := put_set (sw_sets sw) (with_status stored m (w_rv (sw_w sw))) |} /\
+     m' = with_status stored m (w_rv (sw_w sw)) /\ ok = true).
+Proof.
+  unfold update_status. destruct (find_set _ _ _ _) as [stored|]; [|intros H; injection H as <- <- _; now left].
+  destruct (negb (os_rv stored =? os_rv m)) eqn:Erv; [intros H; injection H as <- <- _; now left|].
+  destruct (status_eqb stored m) eqn:Es; intros H; injection H as <- <- <-; [now left|].
+  right. exists stored. apply negb_false_iff, N.eqb_eq in Erv. auto 7.
+Qed.
+
+Lemma put_set_in sets s' st y :
+  find_set sets (oi_kind (os_id s')) (oi_ns (os_id s')) (oi_name (os_id s')) = Some st -> In y sets -> y = st \/ In y (put_set sets s').
+Proof.
+  unfold find_set. induction sets as [|z r IH]; cbn; [contradiction|]. unfold oid_eqb.
+  destruct ((oi_kind (os_id z) =? oi_kind (os_id s')) && (oi_ns (os_id z) =? oi_ns (os_id s')) && (oi_name (os_id z) =? oi_name (os_id s'))) eqn:E; cbn.
+  - intros H [->|Hy]; [left; congruence|right; now right].
+  - intros H [->|Hy]; [right; now left|]. destruct (IH H Hy); [now left|right; now right].
+Qed.
+
+Lemma put_set_self sets s' st :
+  find_set sets (oi_kind (os_id s')) (oi_ns (os_id s')) (oi_name (os_id s')) = Some st -> In s' (put_set sets s').
+Proof.
+  unfold find_set. induction sets as [|z r IH]; cbn; [discriminate|]. unfold oid_eqb.
+  destruct ((oi_kind (os_id z) =? oi_kind (os_id s')) && (oi_ns (os_id z) =? oi_ns (os_id s')) && (oi_name (os_id z) =? oi_name (os_id s'))); cbn; [now left|].
+  intros H. right. now apply IH.
+Qed.
+
+Lemma put_set_names sets s' st :
+  find_set sets (oi_kind (os_id s')) (oi_ns (os_id s')) (oi_name (os_id s')) = Some st ->
+  map (fun y => oi_name (os_id y)) (put_set sets s') = map (fun y => oi_name (os_id y)) sets.
+Proof.
+  unfold find_set. induction sets as [|z r IH]; cbn; [discriminate|]. unfold oid_eqb.
+  destruct ((oi_kind (os_id z) =? oi_kind (os_id s')) && (oi_ns (os_id z) =? oi_ns (os_id s')) && (oi_name (os_id z) =? oi_name (os_id s'))) eqn:E; cbn.
+  - intros _. f_equal. apply andb_true_iff in E. destruct E as [_ E]. apply N.eqb_eq in E. congruence.
+  - intros H. f_equal. now apply IH.
+Qed.
+
+Lemma sname_rewrap sets o : sname (rewrap sets o) = oi_name (os_id o).
+Proof. unfold rewrap. destruct (find_dset sets _); reflexivity. Qed.
+
+(** Writing a new version [o'] of the stored ObjectSet of [x0] back into the deployment-level world. *)
+Lemma put_back_step sets x0 o' k ns :
+  NoDup (map sname sets) -> In x0 sets ->
+  find_set (map ds_set sets) k ns (sname x0) = Some (ds_set x0) ->
+  os_id o' = os_id (ds_set x0) -> os_prev o' = os_prev (ds_set x0) -> os_deleting o' = os_deleting (ds_set x0) ->
+  (os_revision o' = srev x0 \/
+   (srev x0 = 0%Z /\ os_revision o' <> 0%Z /\ forall b, In b sets -> In (sname b) (os_prev (ds_set x0)) -> (srev b < os_revision o')%Z)) ->
+  oset_step sets (map (rewrap sets) (put_set (map ds_set sets) o')).
+Proof.
+  intros Hnd Hx0 Hf Hid Hprev Hdel Hrev.
+  pose proof (find_set_id _ _ _ _ _ Hf) as (Hk & Hns & _).
+  assert (Hf' : find_set (map ds_set sets) (oi_kind (os_id o')) (oi_ns (os_id o')) (oi_name (os_id o')) = Some (ds_set x0)).
+  { rewrite Hid, Hk, Hns. exact Hf. }
+  assert (Hrw : rewrap sets o' = {| ds_set := o'; ds_hash := ds_hash x0; ds_pbp := ds_pbp x0; ds_sel := ds_sel x0; ds_ctrl := ds_ctrl x0; ds_ctrlset := ds_ctrlset x0 |}).
+  { unfold rewrap. rewrite Hid. fold (sname x0). now rewrite (nodup_find _ _ Hnd Hx0). }
+  assert (Hsrel : srel sets x0 (rewrap sets o')).
+  { rewrite Hrw. unfold srel, sname, srev. cbn. rewrite Hid, Hprev, Hdel. repeat split; auto. }
+  split; [|split].
+  - intros _. rewrite map_map. erewrite map_ext by (intros; apply sname_rewrap).
+    rewrite (put_set_names _ _ _ Hf'). now rewrite map_map.
+  - intros x' Hx'. apply in_map_iff in Hx'. destruct Hx' as (z & <- & Hz). apply in_put_set in Hz.
+    destruct Hz as [->|Hz]; [exists x0; auto|]. apply in_map_iff in Hz. destruct Hz as (x & <- & Hx).
+    exists x. split; [assumption|]. rewrite (rewrap_id _ _ (nodup_find _ _ Hnd Hx)). apply srel_refl.
+  - intros x Hx. left. destruct (put_set_in _ _ _ _ Hf' (in_map ds_set _ _ Hx)) as [E|Hin].
+    + assert (x = x0) by (apply (NoDup_map_eq sname sets); auto; unfold sname; now rewrite E). subst x.
+      exists (rewrap sets o'). split; [|assumption]. apply in_map. eapply put_set_self; eauto.
+    + exists x. split; [|apply srel_refl]. rewrite <- (rewrap_id sets x (nodup_find _ _ Hnd Hx)). now apply in_map.
+Qed.
+
+Lemma find_set_map_ds sets k ns n mem : find_set (map ds_set sets) k ns n = Some mem -> exists x0, In x0 sets /\ ds_set x0 = mem /\ sname x0 = n.
+Proof.
+  intros H. pose proof (find_set_in _ _ _ _ _ H) as Hin. apply in_map_iff in Hin. destruct Hin as (x0 & E & Hx0).
+  exists x0. repeat split; auto. unfold sname. rewrite E. now apply (find_set_id _ _ _ _ _ H).
+Qed.
+
+Lemma rev_step_oset w n :
+  NoDup (map sname (dw_sets w)) ->
+  oset_step (dw_sets w) (dw_sets (rev_step w n)) /\ dw_dep (rev_step w n) = dw_dep w /\
+  w_store (dw_w (rev_step w n)) = w_store (dw_w w).
+Proof.
+  intros Hnd. unfold rev_step. set (sw := to_sworld w).
+  destruct (find_set (sw_sets sw) (set_kind w) (oi_ns (d_id (dw_dep w))) n) as [mem|] eqn:Ef; [|split; [apply oset_step_refl|auto]].
+  destruct (find_set_map_ds _ _ _ _ _ Ef) as (x0 & Hx0 & Emem & En). subst mem n.
+  pose proof (find_set_id _ _ _ _ _ Ef) as (Hk & Hns & Hnm).
+  assert (Hfid : find_set (sw_sets sw) (oi_kind (os_id (ds_set x0))) (oi_ns (os_id (ds_set x0))) (oi_name (os_id (ds_set x0))) = Some (ds_set x0)).
+  { rewrite Hk, Hns. exact Ef. }
+  (* the outcome of writing a status whose revision is justified *)
+  assert (Hwrite : forall m sw' m' ok,
+            os_id m = os_id (ds_set x0) ->
+            (os_revision m = srev x0 \/ (srev x0 = 0%Z /\ os_revision m <> 0%Z /\
+               forall b, In b (dw_sets w) -> In (sname b) (os_prev (ds_set x0)) -> (srev b < os_revision m)%Z)) ->
+            update_status sw m = (sw', m', ok) ->
+            oset_step (dw_sets w) (dw_sets (of_sworld w sw')) /\ dw_dep (of_sworld w sw') = dw_dep w /\
+            w_store (dw_w (of_sworld w sw')) = w_store (dw_w w)).
+  { intros m sw' m' ok Hid Hrev Hu. destruct (update_status_shape _ _ _ _ _ Hu) as [[-> _]|(stored & Hfs & _ & _ & -> & _ & _)].
+    - unfold sw. rewrite (of_to_sworld _ Hnd). split; [apply oset_step_refl|auto].
+    - rewrite Hid, Hfid in Hfs. injection Hfs as <-. split; [|split; reflexivity]. cbn [of_sworld dw_sets sw_sets].
+      eapply put_back_step; eauto. }
+  unfold revision_pass. destruct (negb (os_revision (ds_set x0) =? 0)%Z) eqn:E0.
+  - destruct (update_status sw (ds_set x0)) as [[sw2 m2] ok2] eqn:Eu. eapply (Hwrite (ds_set x0)); [reflexivity|now left|exact Eu].
+  - apply negb_false_iff, Z.eqb_eq in E0. destruct (os_prev (ds_set x0)) as [|p ps] eqn:Eprev.
+    + destruct (update_status sw (set_revision (ds_set x0) 1)) as [[sw2 m2] ok2] eqn:Eu.
+      eapply (Hwrite (set_revision (ds_set x0) 1)); [reflexivity| |exact Eu]. right. cbn. split; [exact E0|]. split; [discriminate|]. intros b _ [].
+    + destruct (scan_prev (sw_sets sw) (ds_set x0) (p :: ps) 0) as [[latest|]|] eqn:Esc.
+      * destruct (update_status sw (set_revision (ds_set x0) (latest + 1))) as [[sw1 mem2] ok] eqn:Eu.
+        destruct (scan_prev_bound _ _ _ _ _ Esc) as (Hle & Hall).
+        assert (Hrev : os_revision (set_revision (ds_set x0) (latest + 1)) = srev x0 \/
+                       (srev x0 = 0%Z /\ os_revision (set_revision (ds_set x0) (latest + 1)) <> 0%Z /\
+                        forall b, In b (dw_sets w) -> In (sname b) (p :: ps) -> (srev b < os_revision (set_revision (ds_set x0) (latest + 1)))%Z)).
+        { right. cbn [os_revision set_revision]. split; [exact E0|]. split; [lia|]. intros b Hb Hin. destruct (Hall _ Hin) as (q & Hq & _ & Hql).
+          destruct (find_set_map_ds _ _ _ _ _ Hq) as (b' & Hb' & <- & Hn').
+          assert (b' = b) by (apply (NoDup_map_eq sname (dw_sets w)); auto). subst b'. unfold srev. lia. }
+        destruct ok.
+        -- destruct (update_status sw1 mem2) as [[sw2 m3] ok3] eqn:Eu2.
+           destruct (update_status_shape _ _ _ _ _ Eu) as [[-> ->]|(stored & Hfs & _ & _ & -> & -> & _)].
+           ++ eapply (Hwrite (set_revision (ds_set x0) (latest + 1))); [reflexivity|exact Hrev|exact Eu2].
+           ++ (* the second write finds what the first one stored: nothing changes *)
+              cbn [set_revision os_id] in Hfs. rewrite Hfid in Hfs. injection Hfs as <-.
+              unfold update_status in Eu2. cbn [sw_sets with_status os_id] in Eu2.
+              rewrite (find_put_set _ (with_status (ds_set x0) (set_revision (ds_set x0) (latest + 1)) (w_rv (sw_w sw))) (ds_set x0)) in Eu2 by exact Hfid.
+              rewrite N.eqb_refl, status_eqb_refl in Eu2. cbn in Eu2. injection Eu2 as <- _ _.
+              split; [|split; reflexivity]. cbn [of_sworld dw_sets sw_sets].
+              eapply put_back_step; eauto. rewrite Eprev. exact Hrev.
+        -- eapply (Hwrite (set_revision (ds_set x0) (latest + 1))); [reflexivity|exact Hrev|exact Eu].
+      * unfold sw. rewrite (of_to_sworld _ Hnd). split; [apply oset_step_refl|auto].
+      * unfold sw. rewrite (of_to_sworld _ Hnd). split; [apply oset_step_refl|auto].
+Qed.
+
+Section PassBump.
+  Variable hash : N -> option N -> N.
+  Variable fault : option (nat * bool).
+
+  Definition is_update (e : dev) : Prop := match e with DUpdate _ _ _ _ => True | _ => False end.
+  Definition not_create_status (e : dev) : Prop := match e with DCreate _ _ _ _ _ | DStatus _ _ _ _ _ _ => False | _ => True end.
+
+  Lemma pause_loop_updates paused : forall sets st st' mem,
+    pause_loop fault st paused sets = (st', mem) -> exists es, news st st' es /\ Forall is_update es.
+  Proof.
+    induction sets as [|s r IH]; cbn [pause_loop]; intros st st' mem H; [injection H as <- _; exists []; split; [apply news_refl|constructor]|].
+    destruct (if is_archived s then (st, s) else if Bool.eqb paused (paused_by_parent s) then (st, s)
+              else if paused then upd_req fault st s LPaused true else upd_req fault st s LActive false) as [st1 s1] eqn:E1.
+    destruct (pause_loop fault st1 paused r) as [st2 r2] eqn:E2. injection H as <- _.
+    destruct (IH _ _ _ E2) as (e2 & H2 & F2).
+    assert (H1 : exists es, news st st1 es /\ Forall is_update es).
+    { assert (Hu : forall life pbp, upd_req fault st s life pbp = (st1, s1) -> exists es, news st st1 es /\ Forall is_update es).
+      { intros life pbp Hu. destruct (upd_req_spec _ _ _ _ _ _ _ Hu) as [(He & _)|(_ & rr & He & _)].
+        - exists []. split; [unfold news; now rewrite app_nil_r|constructor].
+        - eexists. split; [exact He|]. constructor; [exact I|constructor]. }
+      destruct (is_archived s); [injection E1 as <- _; exists []; split; [apply news_refl|constructor]|].
+      destruct (Bool.eqb paused (paused_by_parent s)); [injection E1 as <- _; exists []; split; [apply news_refl|constructor]|].
+      destruct paused; eapply Hu; eauto. }
+    destruct H1 as (e1 & H1 & F1). exists (e1 ++ e2). split; [eapply news_trans; eauto|apply Forall_app; auto].
+  Qed.
+
+  (** The collision counter changes only in a pass whose Create was answered AlreadyExists. *)
+  Lemma dep_pass_bump stale w w' evs r h cc cs rv co sr :
+    dep_pass hash fault stale w = (w', evs, r) -> In (DStatus h cc cs rv co sr) evs ->
+    cc = d_cc (dw_dep w) \/
+    (cc = bump_cc (d_cc (dw_dep w)) /\ forall n phs prev hh cr, In (DCreate n phs prev hh cr) evs -> cr = CrExists).
+  Proof.
+    intros Hp Hin. destruct (dep_pass_unfold _ _ _ _ _ _ _ Hp) as (st3 & d2 & -> & _ & _ & Hc).
+    destruct (status_req_news fault st3 d2) as (ess & Hn & Hess). rewrite Hn in *.
+    assert (Hfin : forall es3, p_evs st3 = es3 -> Forall (fun e => match e with DStatus _ _ _ _ _ _ => False | _ => True end) es3 ->
+              (d_cc d2 = d_cc (dw_dep w) \/ (d_cc d2 = bump_cc (d_cc (dw_dep w)) /\ forall n phs prev hh cr, In (DCreate n phs prev hh cr) es3 -> cr = CrExists)) ->
+              cc = d_cc (dw_dep w) \/ (cc = bump_cc (d_cc (dw_dep w)) /\ forall n phs prev hh cr, In (DCreate n phs prev hh cr) (p_evs st3 ++ ess) -> cr = CrExists)).
+    { intros es3 E3 Hns Hd. rewrite E3 in *. apply in_app_or in Hin. destruct Hin as [Hin|Hin].
+      - rewrite Forall_forall in Hns. destruct (Hns _ Hin).
+      - destruct Hess as [->|(rr & ->)]; [contradiction|]. destruct Hin as [Hin|[]]. injection Hin as _ <- _ _ _ _.
+        destruct Hd as [Hd|[Hd Hall]]; [now left|right]. split; [assumption|]. intros n phs prev hh cr Hi.
+        apply in_app_or in Hi. destruct Hi as [Hi|[Hi|[]]]; [eauto|discriminate]. }
+    destruct Hc as [(_ & -> & ->)|(_ & stp & mem & Epl & Hc)].
+    - rewrite st_listed_evs in *. apply (Hfin [] eq_refl); [constructor|now left].
+    - destruct (pause_loop_updates _ _ _ _ _ Epl) as (esp & Hnp & Hesp). unfold news in Hnp. rewrite st_listed_evs in Hnp. cbn in Hnp.
+      assert (Hesp' : Forall (fun e => match e with DStatus _ _ _ _ _ _ => False | DCreate _ _ _ _ _ => False | _ => True end) esp).
+      { eapply Forall_impl; [|exact Hesp]. intros [] He; try exact I; destruct He. }
+      destruct Hc as [(_ & -> & ->)|(_ & sta & d3 & mem' & Enr & Ear & ->)].
+      + apply (Hfin esp Hnp).
+        * eapply Forall_impl; [|exact Hesp']. intros []; auto.
+        * left. now destruct (set_status_keeps (dep_hashed hash w) (fst (split_current (has_current (dep_hashed hash w) (listed stale w)) mem)) (snd (split_current (has_current (dep_hashed hash w) (listed stale w)) mem))) as (_ & -> & _).
+      + destruct (new_revision_spec _ _ _ _ _ _ _ Enr) as (esn & Hnn & Hesn & Hd3).
+        destruct (archive_news fault _ _ _ _ _ _ Ear) as (esa & Hna & _ & Hesa).
+        unfold news in Hnn, Hna.
+        assert (Hesa' : Forall (fun e => match e with DStatus _ _ _ _ _ _ => False | DCreate _ _ _ _ _ => False | _ => True end) esa).
+        { eapply Forall_impl; [|exact Hesa]. intros e [(n & pbp & rr & ->)|[(n & pbp & rr & -> & _)|(n & rr & -> & _)]]; exact I. }
+        apply (Hfin ((esp ++ esn) ++ esa)); [now rewrite Hna, Hnn, Hnp| |].
+        * repeat (apply Forall_app; split).
+          -- eapply Forall_impl; [|exact Hesp']. intros []; auto.
+          -- destruct Hesn as [->|(rr & -> & _)]; [constructor|constructor; [exact I|constructor]].
+          -- eapply Forall_impl; [|exact Hesa']. intros []; auto.
+        * destruct (set_status_keeps d3 (fst (split_current (has_current (dep_hashed hash w) (listed stale w)) mem')) (snd (split_current (has_current (dep_hashed hash w) (listed stale w)) mem'))) as (_ & -> & _).
+          destruct Hd3 as [->|(-> & _ & ->)]; [now left|right]. split; [reflexivity|]. intros n phs prev hh cr Hi.
+          apply in_app_or in Hi. destruct Hi as [Hi|Hi].
+          -- apply in_app_or in Hi. destruct Hi as [Hi|[Hi|[]]]; [|now injection Hi as _ _ _ _ <-].
+             rewrite Forall_forall in Hesp'. destruct (Hesp' _ Hi).
+          -- rewrite Forall_forall in Hesa'. destruct (Hesa' _ Hi).
+  Qed.
+End PassBump.
+
+(** ** Histories *)
+Section Histories.
+  Variable hash : N -> option N -> N.
+
+  (** The steps the history theorems quantify over: everything except a stale List. *)
+  Definition ok_step (s : step) : Prop :=
+    match s with SDep stale _ => stale = false | SSet _ _ => False | _ => True end.
+
+  Lemma listed_fresh_iff w s : In s (listed false w) <-> In s (dw_sets w) /\ ds_sel s = true.
+  Proof.
+    unfold listed. rewrite !isort_in, filter_In. unfold hidden. cbn. rewrite andb_true_r. tauto.
+  Qed.
+
+  Lemma edit_dep_sets w f c : dw_sets (edit_dep w f c) = dw_sets w.
+  Proof. unfold edit_dep. now destruct c. Qed.
+
+  Lemma created_event evs x : created evs x -> exists r, In (DCreate (sname x) (os_phases (ds_set x)) (os_prev (ds_set x)) (match ds_hash x with Some h => h | None => 0 end) r) evs.
+  Proof. intros (r & H & _). now exists r. Qed.
+
+  Lemma inv_dep_pass fault w w' evs r :
+    Inv w -> dep_pass hash fault false w = (w', evs, r) -> Inv w'.
+  Proof.
+    intros [U1 U2 U3] Hp. destruct (dep_pass_frame _ _ _ _ _ _ _ Hp) as (Hnd & Hold & _).
+    assert (Hcr : forall x', created evs x' -> srev x' = 0%Z /\ ds_sel x' = true /\
+                   (forall s, In s (dw_sets w) -> ds_sel s = true -> srev s <> 0%Z /\ In (sname s) (os_prev (ds_set x'))) /\
+                   sname x' = hash (d_digest (dw_dep w)) (d_cc (dw_dep w))).
+    { intros x' Hc. pose proof Hc as (rr & Hi & _ & H0 & Hs & _).
+      destruct (create_justified _ _ _ _ _ _ _ _ _ _ _ _ U1 Hp Hi) as (_ & _ & Hn0 & _ & Hn & _ & _ & Hprev).
+      repeat split; auto.
+      - apply Hn0. now apply listed_fresh_iff.
+      - rewrite Hprev. apply in_map. now apply listed_fresh_iff. }
+    constructor; [auto|..].
+    - intros a' b' Ha' Hb' Sa Sb Hne Hra.
+      destruct (Hold a' Ha') as [(a & Ha & Ea)|Hca]; [|destruct (Hcr _ Hca) as (H0 & _); contradiction].
+      assert (Ea' : sname a' = sname a /\ srev a' = srev a /\ ds_sel a' = ds_sel a) by (unfold sid in Ea; injection Ea; auto).
+      destruct Ea' as (Na & Ra & Sla).
+      destruct (Hold b' Hb') as [(b & Hb & Eb)|Hcb].
+      + assert (Eb' : sname b' = sname b /\ srev b' = srev b /\ ds_sel b' = ds_sel b) by (unfold sid in Eb; injection Eb; auto).
+        destruct Eb' as (Nb & Rb & Slb). rewrite Ra, Rb. apply U2; auto; congruence.
+      + destruct (Hcr _ Hcb) as (H0 & _). congruence.
+    - intros a' b' Ha' Hb' Sa Sb Hne Hra.
+      destruct (Hold a' Ha') as [(a & Ha & Ea)|Hca], (Hold b' Hb') as [(b & Hb & Eb)|Hcb].
+      + assert (Ea' : sname a' = sname a /\ srev a' = srev a /\ ds_sel a' = ds_sel a /\ os_prev (ds_set a') = os_prev (ds_set a)) by (unfold sid in Ea; injection Ea; auto).
+        assert (Eb' : sname b' = sname b /\ srev b' = srev b /\ ds_sel b' = ds_sel b) by (unfold sid in Eb; injection Eb; auto).
+        destruct Ea' as (Na & Ra & Sla & Pa), Eb' as (Nb & Rb & Slb). rewrite Rb, Pa, Nb. apply U3; auto; congruence.
+      + assert (Ea' : srev a' = srev a /\ ds_sel a' = ds_sel a) by (unfold sid in Ea; injection Ea; auto). destruct Ea' as (Ra & Sla).
+        destruct (Hcr _ Hcb) as (_ & _ & Hall & _). destruct (Hall a Ha) as (Hn0 & _); congruence.
+      + assert (Eb' : sname b' = sname b /\ srev b' = srev b /\ ds_sel b' = ds_sel b) by (unfold sid in Eb; injection Eb; auto).
+        destruct Eb' as (Nb & Rb & Slb). destruct (Hcr _ Hca) as (_ & _ & Hall & _). rewrite Rb, Nb. apply Hall; congruence.
+      + destruct (Hcr _ Hca) as (_ & _ & _ & Na). destruct (Hcr _ Hcb) as (_ & _ & _ & Nb). congruence.
+  Qed.
+
+  Lemma oset_step_put sets cur s' :
+    find_dset sets (sname s') = Some cur -> srel sets cur s' -> oset_step sets (put_dset sets s').
+  Proof.
+    intros Hf Hs. pose proof (find_dset_some _ _ _ Hf) as [Hin Hn]. split; [|split].
+    - intros H. now rewrite (map_put_dset sname _ cur s') by (auto; destruct Hs; congruence).
+    - intros x' Hx. apply in_put_dset in Hx. destruct Hx as [->|Hx]; [exists cur; auto|exists x'; split; [assumption|apply srel_refl]].
+    - intros x Hx. left. destruct (put_dset_in _ _ _ _ Hf Hx) as [->|Hx'].
+      + exists s'. split; [eapply put_dset_self; eauto|assumption].
+      + exists x. split; [assumption|apply srel_refl].
+  Qed.
+
+  Lemma do_step_oset w s :
+    Inv w -> ok_step s -> (forall st f, s <> SDep st f) ->
+    oset_step (dw_sets w) (dw_sets (do_step hash w s)) /\
+    ((forall dg phs, s <> SEdit dg phs) -> d_digest (dw_dep (do_step hash w s)) = d_digest (dw_dep w)) /\
+    d_cc (dw_dep (do_step hash w s)) = d_cc (dw_dep w).
+  Proof.
+    intros HI Hok Hnd. pose proof (i_nodup _ HI) as U1. destruct s; cbn [do_step].
+    - rewrite edit_dep_sets. split; [apply oset_step_refl|]. split; [intros H; now elim (H dg phs)|]. unfold edit_dep. destruct (negb _ || negb _); reflexivity.
+    - rewrite edit_dep_sets. split; [apply oset_step_refl|]. split; intros; unfold edit_dep; destruct (negb _); reflexivity.
+    - rewrite edit_dep_sets. split; [apply oset_step_refl|]. split; intros; unfold edit_dep; destruct (negb _); reflexivity.
+    - exfalso. eapply Hnd; reflexivity.
+    - destruct Hok.
+    - destruct (rev_step_oset w n U1) as (H1 & -> & _). auto.
+    - destruct (find_dset (dw_sets w) n) as [s|] eqn:Ef; [|split; [apply oset_step_refl|auto]].
+      destruct (_ && _ && _); [split; [apply oset_step_refl|auto]|]. cbn [with_sets dw_sets dw_dep].
+      split; [|auto]. pose proof (find_dset_some _ _ _ Ef) as [_ Hn]. eapply (oset_step_put _ s); [change (sname (set_set_status s cs co coset (w_rv (dw_w w)))) with (sname s); now rewrite Hn|]. repeat split; auto.
+    - destruct (find_dset (dw_sets w) n) as [s|] eqn:Ef; [|split; [apply oset_step_refl|auto]].
+      destruct (os_deleting (ds_set s)) eqn:Ed; [|split; [apply oset_step_refl|auto]]. cbn [with_sets dw_sets dw_dep].
+      split; [|auto]. split; [|split].
+      + intros H. unfold del_dset. now apply NoDup_map_filter.
+      + intros x' Hx. apply in_del_dset in Hx. exists x'. split; [tauto|apply srel_refl].
+      + intros x Hx. destruct (N.eq_dec (sname x) n) as [E|E].
+        * right. pose proof (find_dset_some _ _ _ Ef) as [Hs Hn]. assert (x = s) by (apply (NoDup_map_eq sname (dw_sets w)); auto; congruence). now subst.
+        * left. exists x. split; [apply in_del_dset; auto|apply srel_refl].
+    - destruct (lookup k (w_store (dw_w w))); [|split; [apply oset_step_refl|auto]].
+      destruct (o_avail o =? avail); split; try apply oset_step_refl; auto.
+  Qed.
+
+  Theorem inv_step w s : Inv w -> ok_step s -> Inv (do_step hash w s).
+  Proof.
+    intros HI Hok. destruct s as [dg phs|b|l|stale fault|force n|n|n cs co coset|n|k a];
+      try (eapply inv_oset_step; [exact HI|]; apply do_step_oset; auto; intros st f; discriminate).
+    - cbn in Hok. subst stale. cbn [do_step]. destruct (dep_pass hash fault false w) as [[w' evs] r] eqn:Ep. eapply inv_dep_pass; eauto.
+  Qed.
+
+  Theorem inv_run h : forall w, Inv w -> Forall ok_step h -> Inv (run hash w h).
+  Proof.
+    induction h as [|s r IH]; cbn; intros w HI HF; [assumption|]. inversion HF; subst. apply IH; [now apply inv_step|assumption].
+  Qed.
+End Histories.
